@@ -22,7 +22,7 @@ def load_findings():
     out = []
     if KF_FILE.exists():
         out += json.loads(KF_FILE.read_text())["findings"]
-    for f in sorted((ROOT / "findings.d").glob("*.json")):      # per-property fragments (merged by hand into KNOWN_FINDINGS.json)
+    for f in sorted((ROOT / "findings.d").glob("*.json")) if (ROOT / "findings.d").exists() else []:
         out += json.loads(f.read_text())["findings"]
     return out
 
